@@ -10,5 +10,7 @@ INVARIANT WindFullFileReadsAll
 INVARIANT CloudNeverFabricates
 INVARIANT CloudFullFileReadsAll
 INVARIANT CloudSizes
+INVARIANT CloudTrueReadingPasses
+INVARIANT CloudAliasShape
 INVARIANT LatNeverFabricates
 INVARIANT LatFullFileReadsAll
